@@ -165,7 +165,15 @@ class C01(SeqProp):
                     else:
                         if defining(s.type.amplitude) != defining(pin.amplitude) or defining(s.type.detuning) != defining(pin.detuning):
                             bad("pulse-not-only-lengthened", f"channel {name}: lengthening changed the waveform parameters: {defining(pin.amplitude)} -> {defining(s.type.amplitude)}")
-            if pin is not None and isinstance(exc, ValueError):
+            via_mask = False
+            tb = exc.__traceback__ if exc is not None else None
+            while tb is not None:
+                if tb.tb_frame.f_code.co_name == "_modulate_slm_mask_dmm":
+                    # the refusal concerns the SLM mask's own detuning pulse on the DMM (its channel's
+                    # limits), not the pulse being added: not a judgement on this pulse's limits
+                    via_mask = True
+                tb = tb.tb_next
+            if pin is not None and isinstance(exc, ValueError) and not via_mask:
                 msg = str(exc)
                 a, d = arr(pin.amplitude), arr(pin.detuning)
                 fin = np.all(np.isfinite(a)) and np.all(np.isfinite(d))
